@@ -4,6 +4,7 @@ import (
 	"encoding/hex"
 	"fmt"
 	"go/types"
+	"os"
 	"strconv"
 	"strings"
 	"time"
@@ -347,6 +348,9 @@ func (e *Exec) callFn(s *State, fr *Frame, fn *ssa.Function, args []Value, in *s
 				if va, ok := e.variadicArgs(s, args[1]); ok {
 					return ret(s, mkStr(fmt.Sprintf(fs, va...)))
 				}
+				if debugOn {
+					fmt.Fprintf(os.Stderr, "Sprintf(%q) with non-concrete operands in %s\n", fs, fr.fn.String())
+				}
 			}
 		}
 		return ret(s, mkStr("<fmt>"))
@@ -575,6 +579,7 @@ func (e *Exec) doCopy(s *State, args []Value) []Outcome {
 		srcCells = e.cellsOf(s, sr)
 		soff, slen = sr.off, sr.len_
 	case StrV:
+		sr = sr.plain("copy")
 		for _, ch := range sr.b {
 			srcCells = append(srcCells, ch)
 		}
@@ -661,6 +666,7 @@ func (e *Exec) doAppend(s *State, fr *Frame, args []Value, in *ssa.Call) []Outco
 		case SliceV:
 			scells, soff, slen = e.cellsOf(s, y), y.off, y.len_
 		case StrV:
+			y = y.plain("append")
 			for _, ch := range y.b {
 				scells = append(scells, ch)
 			}
@@ -722,6 +728,7 @@ func (e *Exec) doAppend(s *State, fr *Frame, args []Value, in *ssa.Call) []Outco
 		off, l := int(y.off.val), int(y.len_.val)
 		add = e.cellsOf(s, y)[off : off+l]
 	case StrV:
+		y = y.plain("append")
 		for _, ch := range y.b {
 			add = append(add, ch)
 		}
